@@ -19,6 +19,17 @@ KANI = {
   },
 }
 
+# Witness tests: fixed concrete scenarios (integration tests over the public API, kept in /verif/witness) that exhibit the
+# violation of the paired obligations on the real code.  Verus gives no counterexample; when a paired obligation fails the
+# witness is run against the current tree: if it fails too, the VIOLATION carries a replayed failing input.
+WITNESS_TESTS = {
+  "c01_order_mixed_sizes": {
+    "file": "witness/c01_order_mixed_sizes.rs", "props": ["C01"],
+    "pairs_fn": ["batch_from_carryover", "batch_from_pipe", "pipe_arm_guard"],
+    "what": "PUSH->PULL over tcp, burst of 240 numbered messages alternating 100 B and 300 KiB (> SNDBATCH_BYTES): received in the order sent",
+  },
+}
+
 COMMON_TRUSTED = [
   "prelude/bytes.rs: assumed contracts of bytes::{Bytes,BytesMut} (views Seq<u8>; documented panics as preconditions)",
   "prelude/msg.rs: Msg/MsgFlags stand-ins (bitflags! is a macro; Msg accessors are one-liners, metadata field dropped)",
@@ -57,14 +68,17 @@ PROPS = {
 }
 
 PROPS["C01"] = {
-  "units": ["egress", "enc", "framer"],
+  "units": ["egress", "enc", "framer", "batch"],
   "kani_quick": [], "kani_thorough": [],
   "claim": "Session-local byte-stream conservation, proved unbounded on the verbatim functions: EgressBuffer (push appends at the tail, advance(n) drops exactly n bytes from the front for every n and every chunking, "
            "push_priority inserts only after the partially written head chunk, counters follow the view) and the batch encoders (frame_contiguous / frame_vectored / NullFramer wrappers emit exactly enc_batches of the frames in batch order: "
-           "nothing reordered, merged, dropped or duplicated). End-to-end delivery across tasks, pipes and the kernel is a whole-system property and is not claimed.",
-  "level_note": "Sequential contracts on single-owner state (the session actor owns EgressBuffer exclusively). Not covered: batch assembly in actor.rs (tokio::select! body), DEALER pending queue, inproc path, fibre channels, the 'accepted during connect' part.",
+           "nothing reordered, merged, dropped or duplicated); the two batch-assembly regions of the session actor's operational loop (carry-over arm and core-pipe arm, extracted verbatim as regions) keep 'batch ++ carry-over ++ core pipe' equal to the FIFO they started from, "
+           "the core pipe is read only when the carry-over is empty, and every round with queued messages frames at least one. End-to-end delivery across tasks, pipes and the kernel is a whole-system property and is not claimed.",
+  "level_note": "Sequential contracts on single-owner state (the session actor owns EgressBuffer exclusively). Not covered: the select!/loop structure around the two regions (which arm runs when), DEALER pending queue, inproc path, fibre channels, the 'accepted during connect' part.",
   "technique": "contract-based deductive verification (Verus on mechanically extracted real functions; abstract view + representation invariant)",
-  "trusted_base": COMMON_TRUSTED + ["vstd VecDeque specs + assume_specification for VecDeque::front/is_empty"],
+  "trusted_base": COMMON_TRUSTED + ["vstd VecDeque specs + assume_specification for VecDeque::front/is_empty",
+                                     "unit batch: contract of CorePipeManagerX::try_recv_batch_from_core (fibre channel hands over the oldest r <= max messages in order) assumed; Vec::drain + VecDeque::extend by std semantics; "
+                                     "per-message wire size < 2^48 and sndbatch_bytes_physical <= 2^62; ZmtpEngineConfig stand-in with the four fields read"],
   "assumptions": ["pending bytes and message counters fit in usize (preconditions)", "advance(n) is called with n <= pending bytes (what poll_write_vectored can return)"],
 }
 
@@ -218,7 +232,7 @@ PROPS["C11"] = {
 }
 
 PROPS["C14"] = {
-  "units": ["iface", "route", "egress"],
+  "units": ["iface", "route", "egress", "batch"],
   "kani_quick": [], "kani_thorough": [],
   "claim": "Error mapping only, proved on the verbatim async functions of the session-backed connection interface (ScaConnectionIface): with SNDTIMEO = 0 a full pipe yields would-block at once and the batch is handed back unchanged; "
            "with SNDTIMEO = -1 send_multipart_owned never answers would-block or timeout (untimed wait); errors are only would-block / timeout / connection-closed; try_send_multipart_owned_sync and try_route_sync hand a refused batch back intact; "
